@@ -5,10 +5,12 @@ CONSTANTS
   Closer = "c"
   Tables = {"t1", "t2"}
   LocSeq <- Loc2
-  FreeLocs = FALSE
+  FreeLocs = TRUE
   BatchSizes = {1, 2, 3}
-  PerIns = 2
-  PerFl = 1
-  LockScope = "code"
+  PerIns = 1
+  PerFl = 2
+  LockScope = "fix"
+  SigMode = "proc"
 VIEW View
-INVARIANTS TypeOK OnlyRacesHurt NeverTwice LocInternOK TxnOwner EmitCase
+INVARIANTS TypeOK AllPersistedOnce NoCrash FlushHoldsLock NeverTwice LocInternOK TxnOwner EmitCase
+PROPERTIES Terminates Refines
